@@ -521,7 +521,10 @@ def csv_vs_rows(files, doc, numbered):
     """the written CSV carries exactly the ids / from / go_to targets of to_rows (ties the file to the row models)"""
     from rpft.rapidpro.models.containers import RapidProContainer
 
+    last = {f["name"]: fi for fi, f in enumerate(doc["flows"])}
     for fi, f in enumerate(doc["flows"]):
+        if last[f["name"]] != fi:
+            continue            # flows of one name share one file: the file holds the last of them
         data = files.get(f"{f['name']}.csv")
         if data is None:
             return {"what": "no file for flow", "flow": f["name"]}
@@ -578,7 +581,10 @@ def _gen_doc(rng, maxnodes):
         doc = FJ.gen_container(rng, rng.randint(1, maxnodes), special_text=rng.random() < 0.7, ui=rng.random() < 0.4)
         src = "foreign"
         if rng.random() < 0.2:
-            other = FJ.gen_container(rng, rng.randint(1, maxnodes), special_text=rng.random() < 0.7, ui=rng.random() < 0.4, name="flow_b")
+            # (sometimes the two flows carry the SAME name — two exports merged into one file: whatever the tool does
+            # with their sheets, it must not be decided by their uuids)
+            other = FJ.gen_container(rng, rng.randint(1, maxnodes), special_text=rng.random() < 0.7, ui=rng.random() < 0.4,
+                                     name=doc["flows"][0]["name"] if rng.random() < 0.4 else "flow_b")
             doc["flows"].append(other["flows"][0])
             have = {g["name"] for g in doc["groups"]}
             doc["groups"] += [g for g in other["groups"] if g["name"] not in have]
